@@ -316,6 +316,62 @@ func checkVerbatim(c *Ctx, pk *packages.Package, fd *ast.FuncDecl) {
 			}
 			return true
 		})
+		// a YAML rendering ends with its own line feed: printed with Println it gains one, which a
+		// final block scalar (|+) takes as content. Println is for the JSON rendering only.
+		var yamlGuards, lnGuards [][]goan.Lit
+		var lnPos []token.Pos
+		goan.WalkGuards(info, fd.Body, func(leaf ast.Node, guards []goan.Lit, _ []ast.Stmt) {
+			if as, ok := leaf.(*ast.AssignStmt); ok && len(as.Lhs) >= 1 && len(as.Rhs) == 1 && identIs(info, as.Lhs[0], obj) {
+				isYAML := false
+				switch x := ast.Unparen(as.Rhs[0]).(type) {
+				case *ast.TypeAssertExpr:
+					isYAML = true // b = bb.([]byte) of the MarshalYAML result
+				case *ast.CallExpr:
+					if fn := goan.Callee(info, x); fn != nil {
+						n := goan.CalleeName(fn)
+						isYAML = fn.Name() == "marshalToYAMLFormat" || strings.HasSuffix(n, "yaml.v3.Marshal") || strings.HasSuffix(n, "yaml.v2.Marshal")
+					}
+				}
+				if isYAML {
+					yamlGuards = append(yamlGuards, guards)
+				}
+			}
+			if rs, ok := leaf.(*ast.RangeStmt); ok {
+				leaf = rs.X
+			}
+			ast.Inspect(leaf, func(n ast.Node) bool {
+				if _, isLit := n.(*ast.FuncLit); isLit {
+					return false
+				}
+				call, ok := n.(*ast.CallExpr)
+				if !ok {
+					return true
+				}
+				fn := goan.Callee(info, call)
+				if fn == nil || (goan.CalleeName(fn) != "fmt.Println" && goan.CalleeName(fn) != "fmt.Fprintln") {
+					return true
+				}
+				uses := false
+				ast.Inspect(call, func(m ast.Node) bool {
+					if id, ok := m.(*ast.Ident); ok && info.Uses[id] == obj {
+						uses = true
+					}
+					return true
+				})
+				if uses {
+					lnGuards = append(lnGuards, guards)
+					lnPos = append(lnPos, call.Pos())
+				}
+				return true
+			})
+		})
+		for i, lg := range lnGuards {
+			for _, yg := range yamlGuards {
+				if !guardsExclude(info, lg, yg) {
+					bad = append(bad, "printed with Println at "+c.posOf(pk, lnPos[i])+" although it may hold the YAML rendering (which ends with its own line feed)")
+				}
+			}
+		}
 		sort.Strings(bad)
 		c.Check(len(bad) == 0, "C19.R2.verbatim", fmt.Sprintf("%s.%s › marshalled bytes %s", pk.Name, load.FuncName(fd), obj.Name()), c.posOf(pk, first),
 			"only written, printed, returned or decoded", fmt.Sprintf("the rendered document is %s before being written: one rendering is altered and no longer reloads equal to the other", strings.Join(uniq(bad), "; ")))
@@ -414,4 +470,56 @@ func checkFormatSwitches(c *Ctx, pkgs []*packages.Package) {
 			})
 		}
 	}
+}
+
+
+// guardsExclude: the two guard sets cannot hold together — a literal of one is the negation of a
+// literal of the other, or one says X == "" where the other needs strings.HasSuffix(X, "non-empty").
+func guardsExclude(info *types.Info, a, b []goan.Lit) bool {
+	for _, x := range a {
+		for _, y := range b {
+			if x.Tag != nil || y.Tag != nil || x.NonEmpty || y.NonEmpty {
+				continue
+			}
+			if goan.ExprString(x.E) == goan.ExprString(y.E) && x.Pos != y.Pos {
+				return true
+			}
+			for _, pr := range [][2]goan.Lit{{x, y}, {y, x}} {
+				emptyOf := ""
+				if be, ok := ast.Unparen(pr[0].E).(*ast.BinaryExpr); ok && be.Op == token.EQL && pr[0].Pos {
+					if s, ok := goan.StringVal(info, be.Y); ok && s == "" {
+						emptyOf = goan.ExprString(be.X)
+					}
+				}
+				if emptyOf == "" || !pr[1].Pos {
+					continue
+				}
+				// every disjunct of the other literal is HasSuffix(emptyOf, "non-empty")
+				all := true
+				var disj func(e ast.Expr)
+				disj = func(e ast.Expr) {
+					if be, ok := ast.Unparen(e).(*ast.BinaryExpr); ok && be.Op == token.LOR {
+						disj(be.X)
+						disj(be.Y)
+						return
+					}
+					call, ok := ast.Unparen(e).(*ast.CallExpr)
+					if !ok || len(call.Args) != 2 {
+						all = false
+						return
+					}
+					fn := goan.Callee(info, call)
+					suffix, isConst := goan.StringVal(info, call.Args[1])
+					if fn == nil || goan.CalleeName(fn) != "strings.HasSuffix" || goan.ExprString(call.Args[0]) != emptyOf || !isConst || suffix == "" {
+						all = false
+					}
+				}
+				disj(pr[1].E)
+				if all {
+					return true
+				}
+			}
+		}
+	}
+	return false
 }
